@@ -390,6 +390,25 @@ def run(prog, res, tier):
     main = [s for s in stores if s[0] is init and isinstance(s[1], ast.Assign)
             and isinstance(s[2], ast.Attribute)]
     if len(main) != 1:
+        # no fresh table per instance: class-level state updated in place?
+        xc = prog.cls('spyne.protocol.xml:XmlDocument')
+        cls_level = [a_ for a_ in xc.node.body if isinstance(a_, ast.Assign)
+                     and any(isinstance(t, ast.Name) and
+                             t.id == 'parser_kwargs' for t in a_.targets)]
+        upd = [s_ for s_ in stores if s_[0] is init]
+        if cls_level and not main:
+            where = '%s:%d' % (init.module.relpath, cls_level[0].lineno)
+            res.ob('R2', where, 'parser_kwargs is a class attribute updated '
+                   'by __init__', 'VIOLATED')
+            res.finding('R2', 'XmlDocument|parser_kwargs|class-level', where,
+                        'parser_kwargs is defined on the class and updated '
+                        'in place by __init__ (%s): every XmlDocument/Soap '
+                        'instance of the process shares one option table, so '
+                        'the protocol object constructed last decides the '
+                        'parser flags of all endpoints' % (
+                            unparse(upd[0][1])[:50] if upd else 'no store'))
+            _tail(prog, res, tier)
+            return
         raise AnalysisError('C17-R2 parser_kwargs', 'expected one assignment '
                             'in XmlDocument.__init__, found %d' % len(main))
     # the option table may be built in a local first; anything but a plain
@@ -466,7 +485,24 @@ def run(prog, res, tier):
                             'value %r' % (name, v.value))
         elif isinstance(v, ast.Name) and v.id == name and name in dmap and \
                 name not in rebound:
-            res.ob('R2', where, inst, 'ok')
+            # an option that used to be a safe literal became a parameter:
+            # its default must be that safe value
+            d_ = dmap.get(name)
+            if name in SAFE_LITERALS and not (
+                    isinstance(d_, ast.Constant) and d_.value is want):
+                res.ob('R2', where, inst + ' (default %s)' % (
+                    unparse(d_) if d_ is not None else '-'), 'VIOLATED')
+                res.finding('R2', 'XmlDocument.__init__|%s|default' % name,
+                            where, 'parser option %s is now a constructor '
+                            'argument whose default is %s (must be %r): '
+                            'comments/processing instructions survive '
+                            'parsing, leaf readers stop at the first comment '
+                            'node (<n>25<!-- -->6</n> reads 25) and '
+                            'structural readers meet nodes they cannot '
+                            'handle' % (name, unparse(d_) if d_ is not None
+                                        else 'missing', want))
+            else:
+                res.ob('R2', where, inst, 'ok')
         else:
             res.ob('R2', where, inst, 'VIOLATED')
             res.finding('R2', 'XmlDocument.__init__|%s|binding' % name, where,
@@ -590,7 +626,62 @@ def rule_option_binding(prog, res, rule='R5'):
 
 
 
+def rule_clean_tree(prog, res, rule='R6'):
+    """Comments and processing instructions never reach the readers."""
+    res.rule(rule, 'the parser hands the readers a tree without comments '
+             'and processing instructions (effective option values)')
+    init = prog.method('spyne.protocol.xml:XmlDocument', '__init__')
+    a = init.node.args
+    pos = a.args
+    defaults = [None] * (len(pos) - len(a.defaults)) + list(a.defaults)
+    dmap = {p_.arg: d for p_, d in zip(pos, defaults)}
+    val = None
+    for n in walk_no_defs(init.node):
+        if isinstance(n, ast.Assign) and any(
+                isinstance(t, ast.Attribute) and t.attr == 'parser_kwargs'
+                for t in n.targets):
+            val = n.value
+        if isinstance(n, ast.Call) and isinstance(n.func, ast.Attribute) and \
+                n.func.attr == 'update' and unparse(n.func.value).endswith(
+                'parser_kwargs'):
+            val = n
+    pairs = {}
+    if isinstance(val, ast.Call):
+        for kw in val.keywords:
+            if kw.arg:
+                pairs[kw.arg] = kw.value
+    elif isinstance(val, ast.Dict):
+        for k, v in zip(val.keys, val.values):
+            if isinstance(k, ast.Constant):
+                pairs[k.value] = v
+    n_ = 0
+    for name in ('remove_comments', 'remove_pis'):
+        v = pairs.get(name)
+        eff = None
+        if isinstance(v, ast.Constant):
+            eff = v.value
+        elif isinstance(v, ast.Name) and isinstance(dmap.get(v.id),
+                                                    ast.Constant):
+            eff = dmap[v.id].value
+        n_ += 1
+        ok = eff is True
+        res.ob(rule, init.where, 'effective default of %s: %r' % (name, eff),
+               'ok' if ok else 'VIOLATED')
+        if not ok:
+            res.finding(rule, 'XmlDocument.__init__|%s|effective|%r' % (
+                name, eff), init.where,
+                'with the default configuration the XML parser keeps %s '
+                '(%s=%r): element.text stops at the first such node, so a '
+                'value split by a comment is validated and delivered '
+                'truncated, and structural readers meet nodes whose tag is '
+                'not a string' % ('comments' if 'comments' in name else
+                                  'processing instructions', name, eff))
+    res.floor(rule, 'tree-cleaning options', n_, 2)
+
+
+
 def _tail(prog, res, tier):
+    res.run_rule(rule_clean_tree, prog, res)
     res.run_rule(rule_r4, prog, res)
     res.run_rule(rule_option_binding, prog, res)
     # subclasses forward *args/**kwargs unchanged
@@ -654,6 +745,14 @@ _S = 'spyne/protocol/soap/soap11.py'
 _M = 'spyne/protocol/soap/mime.py'
 
 MUTANTS = [
+    Mutant('comments-kept-by-default', 'R6', 'fire', _X,
+           lambda src: src.replace("            remove_comments=True,\n",
+                                   "            remove_comments=False,\n"),
+           'remove_comments'),
+    Mutant('pis-kept-by-default', 'R6', 'fire', _X,
+           lambda src: src.replace("                remove_pis=True,\n",
+                                   "                remove_pis=False,\n"),
+           'remove_pis'),
     Mutant('anydict-mixed-content-text', 'R4', 'fire',
            'spyne/util/etreeconv.py',
            in_func('etree_to_dict', "        retval = element.text\n",
